@@ -40,6 +40,26 @@ NASTY_CLASS = {0: "plain", 1: "space", 2: "inner_quote", 3: "leading_quote", 4: 
                12: "delim_then_space", 13: "space_then_delim", 14: "delim_space_both", 15: "backtick_space", 16: "comma_spaces"}
 
 
+LIT_COMPS = ['@ws = "a b"', 'print("line  $.csvpath.line_number of a b")', '#1 == "ann lee"', 'not(#1 == "ann  lee")', '@w2 = concat("x y", " ", #1)', 'in(#1, "ann lee|bob  ray")']
+
+
+def ws_sibling(m):
+    """The same member with the blanks inside its string literals doubled (or halved): a different csvpath
+    that any cache keyed on whitespace-normalised text would confuse with the original."""
+    import copy
+    import re
+
+    def flip(mt):
+        body = mt.group(1)
+        if "  " in body:
+            return '"' + body.replace("  ", " ") + '"'
+        return '"' + body.replace(" ", "  ") + '"'
+
+    c = copy.deepcopy(m)
+    c["comps"] = [re.sub(r'"([^"\n]*)"', flip, comp) for comp in c["comps"]]
+    return c if c["comps"] != m["comps"] else None
+
+
 def generate(rng, i, tier):
     nfiles = rng.randint(1, 3)
     files = []
@@ -48,7 +68,7 @@ def generate(rng, i, tier):
         picks = [rng.randrange(len(HEADER_POOL)) if rng.random() < 0.6 else 0 for _ in range(ncol - 1)]
         hdr = ["id"] + [HEADER_POOL[p].format(c + 1) for c, p in enumerate(picks)]
         # (cells that make date parsing emit Python warnings: whether those are errors is process-global state)
-        rows = gen.gen_rows(rng, hdr=hdr, min_rec=0 if rng.random() < 0.15 else 1, trailing_blank_p=0.1, nasty=rng.random() < 0.3, extra_cells=["2024-03-05 10:30 PST", "2024-01-01", "12/31/2024 7pm EST", "1 Jan 2024 09:00 XYZ"])
+        rows = gen.gen_rows(rng, hdr=hdr, min_rec=0 if rng.random() < 0.15 else 1, trailing_blank_p=0.1, nasty=rng.random() < 0.3, extra_cells=["2024-03-05 10:30 PST", "2024-01-01", "12/31/2024 7pm EST", "1 Jan 2024 09:00 XYZ", "ann lee", "ann  lee", "bob  ray"])
         if rng.random() < 0.03 and len(rows) > 2:
             # one data cell larger than the csv module's default field size limit (128 KiB)
             big = [r for r in rows[1:] if r]
@@ -67,11 +87,17 @@ def generate(rng, i, tier):
                 jobs.append(dict(prev))  # exact repeat
                 continue
             fi, m = prev["file"], prev["member"]
+            sib = ws_sibling(m) if rng.random() < 0.5 else None
+            if sib is not None:
+                m = sib
         else:
             m = gen.gen_member(rng, ["id"] + [str(c) for c in range(1, ncol)], len(files[fi]["rows"]), None, max_comps=3, zoo_p=0.85, zoo_pool=gen.ZOO_SAFE, zoo_n=(2, 5))
             if rng.random() < 0.2:
                 # append()/replace() change the headers or the line in place: nothing of that may survive into another job
                 m["comps"].insert(rng.randint(0, len(m["comps"])), gen.zoo_comp(rng, ["id"] + [str(c) for c in range(1, ncol)], 40 + j, gen.ZOO_REWRITE))
+            if rng.random() < 0.3:
+                # literals with blanks in them (see ws_sibling)
+                m["comps"].insert(rng.randint(0, len(m["comps"])), rng.choice(LIT_COMPS))
             if rng.random() < 0.3:
                 m["comps"].append(rng.choice(["@nh = count_headers()", 'print("$.csvpath.headers")', "@hn = header_name(1)"]))
         progs.append(m)
@@ -351,6 +377,7 @@ def execute(sc):
         out.probe("file with a cell above the csv field size limit", any(len(c) > 131072 for f in sc["files"] for r in f["rows"] for c in r))
         out.probe("job that edits headers or the line in place", any(c.startswith(("append(", "replace(")) for j in jobs for c in j["member"]["comps"]))
         out.probe("file with a single record (the header)", any(len([r for r in f["rows"] if r]) == 1 and len(f["rows"]) == 1 for f in sc["files"]))
+        out.probe("two jobs that differ only by blanks inside a string literal", any(ws_sibling(a["member"]) == b["member"] for a in jobs for b in jobs if a is not b))
         out.probe("exact repeat of a job", any(jobs[a] == jobs[b] for a in range(len(jobs)) for b in range(a + 1, len(jobs))))
         out.extra["header_classes"] = classes
         out.log(hist, len(out.violations))
